@@ -12,7 +12,13 @@ pub fn any_bin() -> std::path::PathBuf {
     std::env::var("VH_ANY").map(Into::into).unwrap_or_else(|_| fw::verif_dir().join("harness/target/any/release/any"))
 }
 
-const VALUES: [&str; 19] = ["1", "-1", "0", "7", "0.5", "(1 / 3)", "(22 / 7)", "1e13", "1e-13", "12345678901234.5", "0.1234567890123", "(-2 / 3)", "100", "0.999999999999999", "-1e-13", "(0 - 1 / 3 ^ 40)", "-0.000000000000123", "-12345678901234.5", "-1e13"];
+// (every count of integer digits and of leading fraction zeros from 1 to 14: where the twelve-digit
+// rendering changes its form is the binary's choice of display spec, which must be the stated one)
+const VALUES: [&str; 47] = [
+    "1", "-1", "0", "7", "0.5", "(1 / 3)", "(22 / 7)", "1e13", "1e-13", "12345678901234.5", "0.1234567890123", "(-2 / 3)", "100", "0.999999999999999", "-1e-13", "(0 - 1 / 3 ^ 40)", "-0.000000000000123", "-12345678901234.5", "-1e13",
+    "12", "123", "1234", "12345", "123456", "1234567", "12345678", "123456789", "1234567890", "12345678901", "123456789012", "1234567890123", "12345678901234", "-987654321.5", "0.01", "0.001", "0.0001", "0.00001", "0.000001", "0.0000001", "0.00000001",
+    "0.000000001", "0.0000000001", "0.00000000001", "0.000000000001", "0.0000000000001", "1e11", "-1.5e-9",
+];
 const UNITS: [&str; 9] = ["", "m", "km", "decade", "m/s", "/s", "m^2", "btu", "kg*m/s^2"];
 
 fn queries(tier: Tier) -> Vec<String> {
